@@ -365,8 +365,16 @@ func (e *Engine) VerifyProps(props []string, only map[string]bool, opts runOpts,
 	// second chance, unloaded: an obligation left open by a solver timeout while 16
 	// queries ran side by side is retried alone with every solver and 4x the time
 	// (a proof that only fails under load would otherwise be a false alarm)
-	retried := 0
+	retried, open := 0, 0
 	for _, o := range rep.Obligations {
+		if !o.Cover && o.Query != "" && (o.Verdict == "undecided" || (o.Verdict == "failed" && o.Candidate)) {
+			open++
+		}
+	}
+	for _, o := range rep.Obligations {
+		if open > 6 {
+			break // many open goals: not a load effect
+		}
 		if o.Cover || o.Query == "" || retried >= 8 {
 			continue
 		}
